@@ -108,6 +108,14 @@ fn lzw_encode(x: &[u8], early: bool) -> Vec<u8> {
     let mut e = if early { Encoder::with_tiff_size_switch(BitOrder::Msb, 8) } else { Encoder::new(BitOrder::Msb, 8) };
     e.encode(x).unwrap()
 }
+/// weezl as `decompress_lzw` calls it, plus whether weezl itself reported a clean end of the stream
+fn ext_lzw_status(input: &[u8], early: bool) -> (Vec<u8>, bool) {
+    use weezl::{decode::Decoder, BitOrder};
+    let mut d = if early { Decoder::with_tiff_size_switch(BitOrder::Msb, 8) } else { Decoder::new(BitOrder::Msb, 8) };
+    let mut out = vec![];
+    let ok = d.into_stream(&mut out).decode_all(input).status.is_ok();
+    (out, ok)
+}
 /// exactly what `decompress_lzw` asks of weezl
 fn ext_lzw(input: &[u8], early: bool) -> Vec<u8> {
     use weezl::{decode::Decoder, BitOrder};
@@ -126,6 +134,16 @@ fn stream_tok(s: &Stream) -> String { show_obj(&Object::Stream(s.clone())) }
 
 #[derive(Default)]
 struct ExtTab(Vec<(String, Vec<u8>, Vec<u8>)>);
+/// every shipped weezl result that weezl itself calls a clean decode is re-derived by the Lean LZW specification
+fn emit_lzw_checks(c: &mut Ctx, tab: &ExtTab) {
+    for (k, i, o) in &tab.0 {
+        let early = match k.as_str() { "l0" => false, "l1" => true, _ => continue };
+        if i.len() > 40000 { continue; }
+        let (out, ok) = ext_lzw_status(i, early);
+        if ok && out == *o { c.count("lzwspec.shipped_checked"); c.corr(format!("lzwspec {} {}", early as u8, hex_tok(i)), format!("eod {}", hex_tok(o))); }
+        else { c.count("lzwspec.shipped_not_clean"); }
+    }
+}
 impl ExtTab {
     fn add(&mut self, kind: &str, i: &[u8], o: Vec<u8>) {
         if !self.0.iter().any(|(k, a, _)| k == kind && a == i) { self.0.push((kind.into(), i.to_vec(), o)); }
@@ -482,7 +500,9 @@ fn build_stream(r: &mut Rng, chain: &[usize], parms: &[Parms], form: &Form, cont
 
 /// run decode / plain / decompress on the real code, record correspondence, return decoded result
 fn decode_and_corr(c: &mut Ctx, s: &Stream) -> Result<Result<Vec<u8>, lopdf::Error>, (String, String)> {
-    let ext = ext_for(s).text();
+    let tab = ext_for(s);
+    emit_lzw_checks(c, &tab);
+    let ext = tab.text();
     let tok = stream_tok(s);
     let res = guard(|| s.decompressed_content());
     c.corr(format!("decode {} {}", tok, ext), out_reply(&res));
@@ -627,6 +647,58 @@ fn run_parms_array(c: &mut Ctx) {
                     json!({"chain": chain_name(&chain), "parms": format!("{:?}", parms), "stream": stream_tok(&s), "plain": hex(&plain)}));
             }
             Err((site, msg)) => c.oracle_fail(&format!("panic@{}", site), msg, json!({"stream": stream_tok(&s)})),
+        }
+    }
+}
+
+// ---------------------------------------------------------------- LZW: weezl against the Lean reference decoder
+
+fn gen_lzw_plain(r: &mut Rng, big: bool) -> Vec<u8> {
+    let n = if big { 6000 + r.usize(14000) } else { r.usize(300) };
+    match if big && r.chance(1, 2) { 0 } else { r.below(7) } {
+        0 => r.bytes(n),
+        1 => { let b = r.byte(); vec![b; n] }                                               // KwKwK sequences
+        2 => { let k = 1 + r.usize(4); let pat = r.bytes(k); (0..n).map(|i| pat[i % pat.len()]).collect() }
+        3 => (0..n).map(|i| (i % 256) as u8).collect(),
+        4 => (0..n).map(|_| if r.chance(9, 10) { b' ' } else { r.byte() }).collect(),
+        5 => (0..n).map(|i| b"BT /F1 12 Tf 72 712 Td (Hello World) Tj ET\n"[i % 42]).collect(),
+        _ => (0..n).map(|_| *r.pick(&[0u8, 1, 255])).collect(),
+    }
+}
+/// every result the model takes from weezl is re-derived by the executable Lean specification of LZW
+fn run_lzw(c: &mut Ctx) {
+    // known answer: the example of ISO 32000-1 §7.4.4.2 (codes 256 45 258 258 65 259 66 257)
+    if let Some(_) = c.case("lzwspec.iso", 0) {
+        let enc = [0x80u8, 0x0B, 0x60, 0x50, 0x22, 0x0C, 0x0C, 0x85, 0x01];
+        let want = [45u8, 45, 45, 45, 45, 65, 45, 45, 45, 66];
+        let got = ext_lzw(&enc, true);
+        if got != want { c.oracle_fail("lzw-weezl", "weezl does not decode the LZW example of ISO 32000-1", json!({"got": hex(&got)})); }
+        c.corr(format!("lzwspec 1 {}", hex(&enc)), format!("eod {}", hex(&want)));
+        let mut s = Stream::new(Dictionary::new(), enc.to_vec());
+        s.dict.set("Filter", Object::Name(b"LZWDecode".to_vec()));
+        match guard(|| s.decompressed_content()) {
+            Ok(Ok(v)) if v == want => {}
+            other => c.oracle_fail("lzw-iso-example", "LZWDecode of the ISO 32000-1 example is wrong", json!({"result": out_reply(&other)})),
+        }
+    }
+    for i in 0..c.n(400, 4000) {
+        let Some(mut r) = c.case("lzwspec", i) else { continue };
+        let big = r.chance(1, 8);
+        let plain = gen_lzw_plain(&mut r, big);
+        let early = r.chance(1, 2);
+        let enc = lzw_encode(&plain, early);
+        let dec = ext_lzw(&enc, early);
+        c.nontrivial(&format!("{} {}", early, hex(&plain)));
+        c.count(if early { "lzwspec.early1" } else { "lzwspec.early0" });
+        if big { c.count("lzwspec.big"); }
+        if enc.len() * 8 / 9 > 3900 { c.count("lzwspec.table_full"); }
+        if dec != plain { c.oracle_fail("lzw-weezl", "weezl does not decode what it encoded", json!({"early": early, "plain_len": plain.len()})); }
+        c.corr(format!("lzwspec {} {}", early as u8, hex_tok(&enc)), format!("eod {}", hex_tok(&dec)));
+        // the other EarlyChange setting on the same bytes (the data then usually goes wrong at the first width change): outputs only
+        if r.chance(1, 4) {
+            let (other, ok) = ext_lzw_status(&enc, !early);
+            if ok { c.corr(format!("lzwspec {} {}", !early as u8, hex_tok(&enc)), format!("eod {}", hex_tok(&other))); c.count("lzwspec.wrong_early_clean"); }
+            else { c.count("lzwspec.wrong_early_error"); }
         }
     }
 }
@@ -954,6 +1026,7 @@ any malformed / edit case; distinct by request text.".into();
     run_big(c);
     run_a85(c);
     run_png(c);
+    run_lzw(c);
     run_chains(c);
     run_parms_array(c);
     run_edit(c);
